@@ -37,7 +37,7 @@ Qed.
 Lemma cw_toks_value_head v rest r : cw_toks_value v ++ rest <> CwTP 93 :: r.
 Proof.
   destruct v; cbn [cw_toks_value app]; try discriminate.
-  unfold cw_num_toks. destruct (cw_round6 ip fp). destruct neg; discriminate.
+  unfold cw_num_toks. destruct (cw_num_digits ip fp). destruct neg; discriminate.
 Qed.
 
 Lemma cw_pitems_unfold n' t : (forall r, t <> CwTP 93 :: r) ->
@@ -65,7 +65,7 @@ Proof.
   - intros _ n rest Hn. destruct n; [cbn in Hn; lia|]. reflexivity.
   - intros b _ n rest Hn. destruct n; [cbn in Hn; lia|]. destruct b; reflexivity.
   - intros neg ip fp _ n rest Hn. cbn [cw_toks_value cw_expect_value] in *. unfold cw_num_toks in *.
-    destruct (cw_round6 ip fp) as [i f]. destruct n; [destruct neg; cbn in Hn; lia|]. destruct neg; reflexivity.
+    destruct (cw_num_digits ip fp) as [i f]. destruct n; [destruct neg; cbn in Hn; lia|]. destruct neg; reflexivity.
   - intros s _ n rest Hn. destruct n; [cbn in Hn; lia|]. reflexivity.
   - (* array *) intros l IH Hw n rest Hn. cbn [cw_toks_value cw_expect_value cw_wf] in *.
     destruct n; [cbn in Hn; lia|]. cbn [app]. rewrite <- app_assoc. cbn [app].
